@@ -96,7 +96,16 @@ async def run_world(net, plan, which, cut=None):
             w.ctl.delay = lambda op, path, n: rng.choice(plan["backend_delay"])
         scripts = []
         for i in which:
-            sc = corpus("" if (plan.get("bases") or plan.get("shared_base")) else prefixes[i])[plan["scripts"][i]]
+            P_ = "" if (plan.get("bases") or plan.get("shared_base")) else prefixes[i]
+            local_scripts = {
+                # works on its whole prefix directory (the name is a textual prefix of a sibling's name), and one that stays put
+                "rename_root": [["connect"], ["login"], ["cmd", f"RNFR {P_}"], ["cmd", "PWD"], ["cmd", f"RMD {P_}"], ["cmd", f"RNFR {P_}"],
+                                ["cmd", f"RNTO {P_}/dir/inside"], ["cmd", f"MKD {P_}/dir/sub"], ["cmd", f"RMD {P_}/dir/sub"], ["cmd", f"MLST {P_}"], ["quit"]],
+                "rmd_and_back": [["connect"], ["login"], ["cmd", f"MKD {P_}/di"], ["cmd", f"RMD {P_}/di"], ["cmd", f"RNFR {P_}/di"],
+                                 ["cmd", f"MKD {P_}/d"], ["cmd", f"RNFR {P_}/d"], ["cmd", f"RNTO {P_}/d2"], ["cmd", f"RMD {P_}/d2"], ["quit"]],
+                "dwell": [["connect"], ["login"], ["cmd", f"CWD {P_}/dir"], ["sleep", 0.06], ["cmd", "PWD"], ["cmd", "CDUP"], ["sleep", 0.02], ["quit"]],
+            }
+            sc = local_scripts[plan["scripts"][i]] if plan["scripts"][i] in local_scripts else corpus(P_)[plan["scripts"][i]]
             if plan.get("bases") or plan.get("shared_base"):
                 sc = [(["login", f"u{i}"] if st == ["login"] else st) for st in sc]
             elif plan["users"][i] == "alice":
@@ -389,6 +398,14 @@ def gen_cases(tier, seed):
                       "prefixes": [""] * k, "users": ["u"] * k, "offsets": [round(rng.random() * 0.006, 4) for _ in range(k)],
                       "lat": [rng.choice([0.0005, 0.001, 0.002]) for _ in range(4)], "mss": [1460, 536, 64],
                       "backend_delay": rng.choice([None, [0, 0.0006]])})
+    # prefixes whose names are textual prefixes of each other (/s1, /s10, /s1x): one session stays in its directory while the
+    # other removes / renames directories whose names start the same way
+    for j in range(8 if tier == "quick" else 120):
+        k = 2 + j % 2
+        pf = [["/s1", "/s10", "/s1x"], ["/s10", "/s1", "/s1-x"], ["/w", "/work", "/wo"]][j % 3][:k]
+        plans.append({"seed": seed * 733 + j, "scripts": [["rename_root", "rmd_and_back"][j % 2]] + ["dwell"] * (k - 1), "prefixes": pf, "users": ["anon"] * k,
+                      "offsets": [round(0.01 + rng.random() * 0.03, 4)] + [0.0] * (k - 1), "lat": [0.0005, 0.001, 0.001, 0.002], "mss": [1460, 1460, 1460],
+                      "backend_delay": None})
     # accounts with differing permissions on one base directory, every script read-only or refused for its account
     ro = ["walk", "retr_pasv", "retr_epsv_after", "retr_rest", "list", "mlsd", "mlsd_dir", "mlst", "retr_missing"]
     denied = ["appe", "stor_rest", "retr_pasv", "mlst", "retr_rest"]     # for the restricted account (odd index)
@@ -407,5 +424,13 @@ def gen_cases(tier, seed):
                       "ops": [first if same else [rng.choice(CLIENT_OPS) for _ in range(rng.randint(2, 5))] for _ in range(k)],
                       "offsets": [round(rng.random() * 0.003, 4) for _ in range(k)], "gaps": [rng.choice([0, 0.0004, 0.001]) for _ in range(k)],
                       "backend_delay": rng.choice([None, [0, 0.0006], [0.0005]])})
+    # every client operation in all sessions at once (what is shared between Client objects shows when the same code is at
+    # work in two of them at the same moment)
+    for k in (2, 3):
+        for op in CLIENT_OPS:
+            for gap in (0, 0.0004):
+                plans.append({"clients": True, "seed": seed * 17 + k, "prefixes": [f"/s{x}" for x in range(k)], "scripts": ["client"] * k,
+                              "ops": [[op, "list_recursive", op] for _ in range(k)], "offsets": [0.0] * k, "gaps": [gap] * k,
+                              "backend_delay": [0, 0.0006] if gap else None})
     per = 6
     return [{"plans": plans[i:i + per]} for i in range(0, len(plans), per)]
